@@ -262,17 +262,18 @@ Section Compare.
     unfold is_soon, bindM. rewrite (override_returns_instant w now false Hov).
     unfold lift at 1. unfold dt_add_td, td_of_seconds. rewrite Hr.
     subst t. unfold lift at 1. cbn [as_dt]. unfold lift at 1. rewrite En.
-    unfold lift, dt_le. cbn [tz wall]. rewrite Hnaive, Tn, Wn. reflexivity.
+    unfold lift, dt_le, dt_cmp. cbn [tz wall]. rewrite Hnaive, Tn, Wn. reflexivity.
   Qed.
 
-  (* ... and with a string it raises AttributeError instead (finding soon-str) *)
-  Theorem soon_str_raises str_ : t = TStr str_ -> in_range (wall now + s) = true ->
-    is_soon t s w = (Exn AttributeError, w).
-  Proof.
-    intros Ht Hr. unfold is_soon, bindM. rewrite (override_returns_instant w now false Hov).
-    unfold lift at 1. unfold dt_add_td, td_of_seconds. rewrite Hr. subst t. reflexivity.
-  Qed.
 End Compare.
+
+(* ... and with a string it raises AttributeError instead (finding soon-str) *)
+Theorem soon_str_raises w now str_ s : ov w = One now -> in_range (wall now + s) = true ->
+  is_soon (TStr str_) s w = (Exn AttributeError, w).
+Proof.
+  intros Hov Hr. unfold is_soon, bindM. rewrite (override_returns_instant w now false Hov).
+  unfold lift at 1. unfold dt_add_td, td_of_seconds. rewrite Hr. reflexivity.
+Qed.
 
 (* ------------------------------------------------------------------ marshalling *)
 
@@ -376,3 +377,57 @@ Proof.
   intros Ha Hb. unfold delta_seconds, dt_sub. rewrite Ha, Hb. eexists. split; [reflexivity|].
   cbn. f_equal. f_equal. lia.
 Qed.
+
+(* ------------------------------------------------------------------ the statement of the comparison clause for every kind
+   of argument, and its refutation for is_soon with a string (finding soon-str) *)
+Definition soon_full_statement : Prop :=
+  forall w now t d s, ov w = One now -> tz now = None -> resolves w t d -> normalizable d = true ->
+    in_range (wall now + s) = true ->
+    exists b, is_soon t s w = (Ok b, w) /\ (b = true <-> instant d <= wall now + s).
+
+(* non-vacuity: a concrete world.  Clock overridden to 2020-01-01T00:00:00; the parser
+   oracle answers 2020-01-01T00:00:00+01:00; the zone database knows UTC *)
+Definition ex_now : dt := naive 63713433600000000.
+Definition ex_d : dt := mkDt 63713433600000000 (Some (mkTz 3600000000 (Some (lit "+01:00")))).
+Definition ex_w : world := mkW (One ex_now) 5 (fun _ => Ok ex_d) (fun _ => Ok (mkZone (fun _ => 0) (Some utc_name))).
+Definition ex_s : str := lit "2020-01-01T00:00:00+01:00".
+
+Theorem soon_str_refuted : ~ soon_full_statement.
+Proof.
+  intros H. destruct (H ex_w ex_now (TStr ex_s) ex_d 0 eq_refl eq_refl eq_refl eq_refl eq_refl) as (b & E & _).
+  rewrite (soon_str_raises ex_w ex_now ex_s 0 eq_refl eq_refl) in E. clear -E. discriminate E.
+Qed.
+
+(* ex_d is one hour before the clock: older than 3599.999999 s, not older than 3600 s *)
+Example older_ex : is_older_than (TStr ex_s) 3599999999 ex_w = (Ok true, ex_w) /\ is_older_than (TDt ex_d) 3600000000 ex_w = (Ok false, ex_w).
+Proof. split; reflexivity. Qed.
+Example newer_ex : is_newer_than (TStr ex_s) (-3600000001) ex_w = (Ok true, ex_w) /\ is_newer_than (TDt ex_d) (-3600000000) ex_w = (Ok false, ex_w).
+Proof. split; reflexivity. Qed.
+Example soon_ex : is_soon (TDt ex_d) (-3600000000) ex_w = (Ok true, ex_w) /\ is_soon (TDt ex_d) (-3600000001) ex_w = (Ok false, ex_w).
+Proof. split; vm_compute; reflexivity. Qed.
+Example compare_hyps_ex : ov ex_w = One ex_now /\ tz ex_now = None /\ resolves ex_w (TStr ex_s) ex_d /\ resolves ex_w (TDt ex_d) ex_d /\
+                          normalizable ex_d = true /\ in_range (wall ex_now + (-3600000000)) = true.
+Proof. repeat split. Qed.
+Example normalize_ex : normalize_time ex_d = Ok (naive 63713430000000000) /\ normalize_time ex_now = Ok ex_now.
+Proof. split; reflexivity. Qed.
+Example advance_ex :
+  prefixes_ok (wall ex_now) [ByDelta 1; BySeconds (-2000000); ByDelta 86400000000] = true /\
+  bindM (run_advs [ByDelta 1; BySeconds (-2000000); ByDelta 86400000000]) (fun _ => utcnow false) ex_w
+  = (Ok (naive 63713519998000001), set_ov ex_w (One (naive 63713519998000001))).
+Proof. split; vm_compute; reflexivity. Qed.
+Example ts_ex : utcnow_ts false ex_w = (Ok (FInt 1577836800), ex_w) /\ in_range (wall ex_now) = true.
+Proof. split; vm_compute; reflexivity. Qed.
+Definition ex_utc : dt := mkDt 63713433600000001 (Some (mkTz 0 (Some utc_long_name))).
+Example marshall_utc_ex :
+  bindM (marshall_now (Some ex_utc)) unmarshall_time ex_w = (Ok (mkDt 63713433600000001 (Some utc_tz)), ex_w) /\
+  is_utc_name utc_long_name = true /\ in_range (wall ex_utc) = true /\
+  lib_zone ex_w utc_name = Ok (mkZone (fun _ => 0) (Some utc_name)).
+Proof. repeat split; vm_compute; reflexivity. Qed.
+Example marshall_naive_ex : bindM (marshall_now (Some ex_now)) unmarshall_time ex_w = (Ok ex_now, ex_w).
+Proof. vm_compute. reflexivity. Qed.
+Example leap_ex :
+  unmarshall_time (mkM 30 6 2015 23 59 60 0 None) ex_w = (Ok (naive (us_of_fields (mkF 2015 6 30 23 59 59 0))), ex_w).
+Proof. vm_compute. reflexivity. Qed.
+Example fields_ex : valid_fields (mkF 2024 2 29 23 59 59 999999) = true /\ in_range 63844847999999999 = true /\
+                    fields_of_us 63844847999999999 = mkF 2024 2 29 23 59 59 999999.
+Proof. repeat split; vm_compute; reflexivity. Qed.
